@@ -259,6 +259,35 @@ fn history(cfg: &Cfg, rep: &mut Report, fl: Flavour, h: u64, steps: usize) {
         }
         pre = post;
     }
+    // the token contract's own address as a holder (tokens sent to it by mistake): it cannot sign, so
+    // nothing may ever leave it - whoever signs
+    if fl.has_mint() {
+        let e = tok.env();
+        let me = tok.addr.clone();
+        e.mock_all_auths();
+        let funded: Result<(), Fail> = crate::world::invoke(e, &tok.addr, "mint", crate::args!(e, me.clone(), 500i128));
+        if funded.is_ok() {
+            for probe in 0..4 {
+                let to = rng.idx(n);
+                let mask = rng.below(1 << n);
+                let signers: Vec<usize> = (0..n).filter(|i| mask >> i & 1 == 1).collect();
+                let (f, a): (&str, soroban_sdk::Vec<soroban_sdk::Val>) = if probe % 2 == 0 {
+                    ("transfer", crate::args!(e, me.clone(), tok.u[to].clone(), 100i128))
+                } else {
+                    ("transfer_from", crate::args!(e, tok.u[to].clone(), me.clone(), tok.u[to].clone(), 100i128))
+                };
+                let inv = crate::world::Inv::new(&tok.addr, f, a.clone());
+                let entries: Vec<(soroban_sdk::Address, crate::world::Inv)> = signers.iter().map(|i| (tok.u[*i].clone(), inv.clone())).collect();
+                w.auth(&entries);
+                let got: Result<(), Fail> = crate::world::invoke(e, &tok.addr, f, a);
+                let bal: i128 = crate::world::invoke(e, &tok.addr, "balance", crate::args!(e, me.clone())).unwrap_or(-1);
+                rep.evaluations += 1;
+                rep.op(format!("{f} out of the token contract's own balance to {to} signed by {signers:?} -> {}", tag(&got)));
+                rep.case(format!("{}/{f}/from-the-token-itself/{}", fl.name(), tag(&got)));
+                rep.check("decrease", got.is_err() && bal == 500, &format!("C02/decrease/{}/{f}/left-the-token-contracts-own-balance", fl.name()), || format!("{f} from the token's own address signed by {signers:?}: {got:?}, its balance is now {bal} (was 500)"));
+            }
+        }
+    }
     rep.end_history();
 }
 
